@@ -99,7 +99,7 @@ impl Sess {
     }
 
     pub fn position_fen(&mut self, p: &Pos) {
-        self.eng.send(&format!("position fen {}", p.to_fen6(0, 1)));
+        self.eng.send(&format!("position fen {}", p.to_fen_game()));
         self.cur = Some(p.clone());
     }
 
